@@ -405,6 +405,10 @@ def run_case(E: L.Examiner, program: G.Program, res: Result = None):
     ex = E.examine(program, opts, expect=expect)
     if res is not None:
         res.inconclusive += len(ex.timeouts)
+    if ex.hung:
+        if res is not None:
+            res.count("compile-did-not-return")
+        return []
     if ex.compile_error is not None:
         if res is not None:
             res.count("not-accepted/" + ("rejected" if ex.compile_error.is_parser_error else "internal-error") + "/" + ex.compile_error.kind)
@@ -650,6 +654,10 @@ def run_near_miss(E: L.Examiner, kind, src, opts, res: Result = None):
     if res is not None:
         res.count("near-miss/programs")
         res.inconclusive += len(ex.timeouts)
+    if ex.hung:
+        if res is not None:
+            res.count("near-miss/compile-did-not-return")
+        return []
     if ex.compile_error is not None:
         if res is not None:
             res.count("near-miss/rejected" if ex.compile_error.is_parser_error else "near-miss/internal-error")
